@@ -29,8 +29,10 @@ type Param struct {
 }
 
 type Import struct {
-	Pkg  string `json:"pkg"`
-	Name string `json:"name"` // simple name, "*" for wildcard
+	Pkg    string `json:"pkg"`
+	Name   string `json:"name"`   // simple name (member name for a static import), "*" for wildcard
+	Static bool   `json:"static"` // import static pkg.Name;
+	Before string `json:"before"` // raw text written before the import line ("" | "\n" | "// note\n" ...)
 }
 
 type Expr struct {
@@ -65,6 +67,7 @@ type Member struct {
 	Generic  string   `json:"generic"` // "" or "<T>"
 	Body     []Stmt   `json:"body"`
 	SameLine bool     `json:"sameLine"` // starts on the line the previous member ends on
+	Throws   []string `json:"throws"`
 }
 
 type Unit struct {
@@ -117,6 +120,12 @@ type Facts struct {
 	RelPath string       `json:"relPath"`
 	Members []MemberFact `json:"members"`
 	Sites   []SiteFact   `json:"sites"`
+	// ImportLines[i] = line of the i-th import declaration
+	ImportLines []int `json:"importLines"`
+	// Refs: every identifier the renderer wrote outside the package/import header in a position where a simple name
+	// refers to a type or a statically imported member: type texts (tokenised), annotation names, created types,
+	// static receivers, catch/throws/extends/implements names and unqualified callee names.
+	Refs []string `json:"refs"`
 }
 
 // ---------------------------------------------------------------------------
@@ -156,15 +165,45 @@ func (sc *scope) local(name string) string {
 	return ""
 }
 
+func identTokens(text string) []string {
+	var out []string
+	cur := []rune{}
+	flush := func() {
+		if len(cur) > 0 {
+			out = append(out, string(cur))
+			cur = cur[:0]
+		}
+	}
+	for _, ch := range text {
+		if ch == '_' || ch == '$' || (ch >= 'a' && ch <= 'z') || (ch >= 'A' && ch <= 'Z') || (ch >= '0' && ch <= '9' && len(cur) > 0) || ch > 127 {
+			cur = append(cur, ch)
+		} else {
+			flush()
+		}
+	}
+	flush()
+	return out
+}
+
+func (rd *renderer) ref(text string) {
+	for _, t := range identTokens(text) {
+		if !rd.refSeen[t] {
+			rd.refSeen[t] = true
+			rd.facts.Refs = append(rd.facts.Refs, t)
+		}
+	}
+}
+
 type renderer struct {
-	w      *writer
-	r      *rand.Rand
-	facts  *Facts
-	sc     *scope
-	fn     int
-	fnName string
-	lambda int
-	style  int
+	refSeen map[string]bool
+	w       *writer
+	r       *rand.Rand
+	facts   *Facts
+	sc      *scope
+	fn      int
+	fnName  string
+	lambda  int
+	style   int
 }
 
 func annText(a Ann) string {
@@ -198,6 +237,9 @@ func (rd *renderer) expr(e *Expr) {
 				w.s(e.Recv + ".")
 			}
 		case "var", "static":
+			if e.RecvKind == "static" {
+				rd.ref(e.Recv)
+			}
 			w.s(e.Recv + ".")
 		case "call":
 			rd.expr(e.RecvCall)
@@ -213,6 +255,9 @@ func (rd *renderer) expr(e *Expr) {
 			sf.ParamT = rd.sc.params[e.Recv]
 			sf.FieldT = rd.sc.fields[e.Recv]
 		}
+		if e.RecvKind == "none" {
+			rd.ref(e.Callee)
+		}
 		w.s(e.Callee)
 		sf.C1, sf.B1 = w.colR, w.colB
 		idx := len(rd.facts.Sites)
@@ -224,6 +269,7 @@ func (rd *renderer) expr(e *Expr) {
 	case "new":
 		w.s("new ")
 		sf := SiteFact{Fn: rd.fn, FnName: rd.fnName, Kind: "new", Callee: e.Type, Line: w.line, C0: w.colR, B0: w.colB, RecvKind: "none", InLambda: rd.lambda > 0}
+		rd.ref(e.Type)
 		w.s(e.Type)
 		sf.C1, sf.B1 = w.colR, w.colB
 		rd.facts.Sites = append(rd.facts.Sites, sf)
@@ -269,6 +315,7 @@ func (rd *renderer) stmt(s *Stmt, ind int) {
 	}
 	switch s.K {
 	case "decl":
+		rd.ref(s.Type)
 		w.s(pad + s.Type + " " + s.Name)
 		if s.E != nil {
 			w.s(" = ")
@@ -341,7 +388,12 @@ func (rd *renderer) stmt(s *Stmt, ind int) {
 	case "try":
 		w.s(pad + "try {\n")
 		rd.block(s.Then, ind+4)
-		w.s(pad + "} catch (Exception ex) {\n")
+		ct := s.Type
+		if ct == "" {
+			ct = "Exception"
+		}
+		rd.ref(ct)
+		w.s(pad + "} catch (" + ct + " ex) {\n")
 		rd.block(s.Els, ind+4)
 		if len(s.Cases) > 0 {
 			w.s(pad + "} finally {\n")
@@ -384,8 +436,8 @@ func relPath(f File) string {
 // Render turns one abstract file into source text plus facts. layout seeds cosmetic choices only.
 func Render(f File, layout int) (string, Facts) {
 	w := &writer{line: 1}
-	facts := Facts{RelPath: relPath(f), Members: []MemberFact{}, Sites: []SiteFact{}}
-	rd := &renderer{w: w, r: rand.New(rand.NewSource(int64(layout)*31 + int64(len(f.Unit.Name)))), facts: &facts, style: layout,
+	facts := Facts{RelPath: relPath(f), Members: []MemberFact{}, Sites: []SiteFact{}, ImportLines: []int{}, Refs: []string{}}
+	rd := &renderer{refSeen: map[string]bool{}, w: w, r: rand.New(rand.NewSource(int64(layout)*31 + int64(len(f.Unit.Name)))), facts: &facts, style: layout,
 		sc: &scope{params: map[string]string{}, fields: map[string]string{}}}
 	if layout%4 == 1 {
 		w.s("/*\n * Copyright \u00a9 acme. call foo.bar(); new Qux();\n */\n")
@@ -394,13 +446,20 @@ func Render(f File, layout int) (string, Facts) {
 		w.s("package " + f.Pkg + ";\n\n")
 	}
 	for _, im := range f.Imports {
-		w.s("import " + im.Pkg + "." + im.Name + ";\n")
+		w.s(im.Before)
+		facts.ImportLines = append(facts.ImportLines, w.line)
+		if im.Static {
+			w.s("import static " + im.Pkg + "." + im.Name + ";\n")
+		} else {
+			w.s("import " + im.Pkg + "." + im.Name + ";\n")
+		}
 	}
 	if len(f.Imports) > 0 {
 		w.s("\n")
 	}
 	u := f.Unit
 	for _, a := range u.Anns {
+		rd.ref(a.Name)
 		w.s(annText(a))
 		if layout%6 == 2 {
 			w.s(" ")
@@ -410,7 +469,11 @@ func Render(f File, layout int) (string, Facts) {
 	}
 	w.s("public " + u.Kind + " " + u.Name + u.TParams)
 	if u.Ext != "" {
+		rd.ref(u.Ext)
 		w.s(" extends " + u.Ext)
+	}
+	for _, im := range u.Impls {
+		rd.ref(im)
 	}
 	if len(u.Impls) > 0 {
 		if u.Kind == "interface" {
@@ -459,6 +522,7 @@ func Render(f File, layout int) (string, Facts) {
 		}
 		mf := MemberFact{Line: w.line}
 		for _, a := range m.Anns {
+			rd.ref(a.Name)
 			w.s(annText(a))
 			if layout%6 == 4 || m.SameLine {
 				w.s(" ")
@@ -471,6 +535,7 @@ func Render(f File, layout int) (string, Facts) {
 		}
 		switch m.Kind {
 		case "field":
+			rd.ref(m.Type)
 			w.s(m.Type + " ")
 			mf.IdLine, mf.IdC0, mf.IdB0 = w.line, w.colR, w.colB
 			w.s(m.Name + ";\n")
@@ -481,6 +546,7 @@ func Render(f File, layout int) (string, Facts) {
 				w.s(m.Generic + " ")
 			}
 			if m.Kind == "method" {
+				rd.ref(m.Type)
 				w.s(m.Type + " ")
 			}
 			mf.IdLine, mf.IdC0, mf.IdB0 = w.line, w.colR, w.colB
@@ -494,10 +560,17 @@ func Render(f File, layout int) (string, Facts) {
 						w.s(", ")
 					}
 				}
+				rd.ref(p.Type)
 				w.s(p.Type + " " + p.Name)
 				rd.sc.params[p.Name] = p.Type
 			}
 			w.s(")")
+			if len(m.Throws) > 0 {
+				for _, t := range m.Throws {
+					rd.ref(t)
+				}
+				w.s(" throws " + strings.Join(m.Throws, ", "))
+			}
 			if u.Kind == "interface" {
 				w.s(";\n")
 				mf.EndLine = w.line - 1
@@ -551,6 +624,9 @@ func Normalize(f *File) {
 		}
 		if m.Anns == nil {
 			m.Anns = []Ann{}
+		}
+		if m.Throws == nil {
+			m.Throws = []string{}
 		}
 		for j := range m.Anns {
 			if m.Anns[j].Args == nil {
